@@ -26,7 +26,7 @@ def budget(tier):
 	return {'quick': 20000, 'thorough': 400000}[tier]
 
 
-def run_case(case, ctx):
+def run_case(case, ctx, _objs=None):
 	if case['kind'] == 'world':
 		from checks import worldcheck
 		return worldcheck.run_world_case(case, ctx, 'C03')
@@ -39,7 +39,17 @@ def run_case(case, ctx):
 	dists = dists[:len(genome_taxa)]
 	taxa = taxgen.resolve_thresholds(case['taxa'], dists)
 	F = Forest(taxa)
-	tobjs, gobjs = taxgen.build_orm(taxa, genome_taxa)
+	if _objs is None:
+		tobjs, gobjs = taxgen.build_orm(taxa, genome_taxa)
+	else:
+		# second phase: the SAME live objects, edited in place to the new forest (a result must reflect the forest as it is now)
+		tobjs, gobjs = _objs
+		for i, t in enumerate(taxa):
+			tobjs[i].distance_threshold = t['thr']
+			tobjs[i].report = bool(t['report'])
+			tobjs[i].parent = None if t['parent'] is None else tobjs[t['parent']]
+			if t.get('name') is not None:
+				tobjs[i].name = t['name']
 	tindex = {id(t): i for i, t in enumerate(tobjs)}
 	gindex = {id(g): i for i, g in enumerate(gobjs)}
 
@@ -102,7 +112,23 @@ def run_case(case, ctx):
 				raise Violation('monotone', f'larger distance {d!r} yields a more specific / unrelated prediction', case)
 		prev, first = p, False
 
-	classes = []
+	edited = False
+	if case.get('edits') and _objs is None:
+		taxa2 = [dict(t) for t in case['taxa']]
+		for e in case['edits']:
+			i = e['i'] % len(taxa2)
+			if e.get('thr') is not None:
+				taxa2[i]['thr'] = e['thr']
+			if e.get('parent') is not None and i > 0:
+				taxa2[i]['parent'] = None if e['parent'] < 0 else e['parent'] % i
+			if e.get('report') is not None:
+				taxa2[i]['report'] = e['report']
+		case2 = dict(case)
+		case2['taxa'] = taxa2
+		case2.pop('edits')
+		run_case(case2, ctx, _objs=(tobjs, gobjs))
+		edited = True
+	classes = ['edited_in_place_then_reclassified'] if edited else []
 	lin = F.lineage(t0)
 	thr_lin = [taxa[x]['thr'] for x in lin]
 	if any(th is not None and float(d) == th for th in (t['thr'] for t in taxa) for d in dists):
@@ -140,7 +166,8 @@ def gen_case(draw, tier):
 	if ng >= 2 and draw(st.integers(0, 3)) == 3:
 		dists[draw(st.integers(0, ng - 1))] = min(dists)     # tie at the minimum
 	genomes = draw(st.lists(st.integers(0, len(taxa) - 1), min_size=ng, max_size=ng))
-	return {'kind': 'classify', 'taxa': taxa, 'genomes': genomes, 'dists': dists}
+	edits = draw(st.one_of(st.none(), st.none(), st.lists(st.fixed_dictionaries({'i': st.integers(0, 20), 'thr': st.one_of(st.none(), taxgen.THR), 'parent': st.one_of(st.none(), st.integers(-1, 20)), 'report': st.one_of(st.none(), st.booleans())}), min_size=1, max_size=3)))
+	return {'kind': 'classify', 'taxa': taxa, 'genomes': genomes, 'dists': dists, 'edits': edits}
 
 
 def strategy(tier):
